@@ -82,6 +82,7 @@ inductive Err where
   | paramAfterEllipsis   -- tokencheck "after '...'"
   | paramComma           -- tokencheck "or ')' after macro parameter"
   | paramName            -- tokencheck "of macro parameter name or '...'"
+  | dupParam             -- "duplicate macro parameter '%s'"
   | hashhash             -- "'##' operator is not yet implemented"
   | vaArgs               -- "__VA_ARGS__ can only be used in variadic function-like macros"
   | hashIdent            -- tokencheck "after '#' operator"
@@ -188,9 +189,12 @@ def macroequal (m1 m2 : Macro) : Bool :=
 
 def vaName : Name := b!"__VA_ARGS__"
 
-def mkParam (t : Tok) : Except Err Param :=
+/-- one parameter: `...`, or an identifier that is not yet a parameter (`ps` = those before it) -/
+def mkParam (ps : List Param) (t : Tok) : Except Err Param :=
   if t.kind = .TELLIPSIS then .ok ⟨vaName, false, false, true⟩
-  else if t.kind = .TIDENT then .ok ⟨t.lit.getD [], false, false, false⟩
+  else if t.kind = .TIDENT then
+    if ps.any (fun q => q.name = t.lit.getD []) then .error .dupParam
+    else .ok ⟨t.lit.getD [], false, false, false⟩
   else .error .paramName
 
 /-- the `while (scan(&tok), tok.kind != TRPAREN)` loop of `define`; parameters accumulate in
@@ -203,7 +207,7 @@ def paramLoop : List Param → List Tok → Except Err (List Param × List Tok)
     else if t.kind = .TRPAREN then .ok (ps.reverse, r)
     else match ps with
       | [] =>
-        match mkParam t with
+        match mkParam [] t with
         | .error e => .error e
         | .ok p => paramLoop [p] r
       | p :: _ =>
@@ -213,7 +217,7 @@ def paramLoop : List Param → List Tok → Except Err (List Param × List Tok)
           | [] => .error .paramName
           | t2 :: r2 =>
             if t2.kind = .TNONE then .error .scan
-            else match mkParam t2 with
+            else match mkParam ps t2 with
               | .error e => .error e
               | .ok p' => paramLoop (p' :: ps) r2
 
@@ -222,10 +226,9 @@ def setFstr (ps : List Param) (i : Nat) : List Param := ps.modify i fun p => { p
 
 /-- what one pass through the body loop of `define` does after `scan(t)` delivered `t`
 (`prev` = kind of the token before it, `i` = parameter index of that token) -/
-def bodyStep (func va : Bool) (ps : List Param) (i : Option Nat) (prev : Kind) (t : Tok) :
+def bodyStep (func : Bool) (ps : List Param) (i : Option Nat) (prev : Kind) (t : Tok) :
     Except Err (List Param × Option Nat) :=
-  if t.kind = .TIDENT ∧ t.lit = some vaName ∧ ¬ va then .error .vaArgs
-  else if ¬ func then .ok (ps, i)
+  if ¬ func then .ok (ps, i)
   else
     let ps1 := match i with | some k => setFtok ps k | none => ps
     let i' := macroparam ps1 t
@@ -244,14 +247,15 @@ def bodyLoop (func va : Bool) :
   | ps, i, t, acc, raw =>
     if t.kind = .TNEWLINE ∨ t.kind = .TEOF then .ok (ps, acc.reverse, t, raw)
     else if t.kind = .THASHHASH then .error .hashhash
+    else if t.kind = .TIDENT ∧ t.lit = some vaName ∧ ¬ va then .error .vaArgs
     else match raw with
       | [] =>
-        match bodyStep func va ps i t.kind eofTok with
+        match bodyStep func ps i t.kind eofTok with
         | .error e => .error e
         | .ok r => .ok (r.1, (t :: acc).reverse, eofTok, [])
       | t' :: r =>
         if t'.kind = .TNONE then .error .scan
-        else match bodyStep func va ps i t.kind t' with
+        else match bodyStep func ps i t.kind t' with
           | .error e => .error e
           | .ok x => bodyLoop func va x.1 x.2 t' (t :: acc) r
 
@@ -525,7 +529,8 @@ def efLoopBody (e : EF) (st : St) : Res :=
     if lvl ∧ e.paren = 0 ∧ (t.kind = .TRPAREN ∨ (t.kind = .TCOMMA ∧ p.fvar = false)) then
       let arg : Arg := ⟨e.cur.reverse, if p.fstr then strTok (e.str ++ [c! '"']) else default⟩
       let e1 : EF := { e with depth := depth, done := arg :: e.done }
-      if t.kind = .TRPAREN then efFinish e1 st
+      -- a comma that ends the argument for the last parameter begins one argument too many
+      if t.kind = .TRPAREN ∨ e.i + 1 = e.m.params.length then efFinish e1 st
       else match rec (.argLoop false) st with
         | .error er => .error er
         | .ok st1 => efStart rec { e1 with i := e.i + 1, t := st1.rt } st1
